@@ -82,6 +82,10 @@ class Conflict(Exception):
     pass
 
 
+class NextVar(Exception):
+    """`continue` in the class loop"""
+
+
 class Spaces:
     def __init__(self):
         self.bind = {}          # type variable -> (space, why)
@@ -784,7 +788,7 @@ def run(rep, ctx):
 
         class Ev:
             def __init__(self, env):
-                self.env, self.key, self.cnt = env, None, {}
+                self.env, self.key, self.cnt, self.locals = env, None, {}, {}
 
             def val(self, n):
                 n = strip(n)
@@ -831,6 +835,11 @@ def run(rep, ctx):
                             "<": lambda: int(x < y), "<=": lambda: int(x <= y), ">": lambda: int(x > y), ">=": lambda: int(x >= y)}[op]()
                 if k == "DeclRefExpr" and n.get("declId") == ivar["declId"]:
                     return "i"
+                if k == "DeclRefExpr" and n.get("declId") in self.locals:
+                    return self.locals[n["declId"]]
+                if k == "ConditionalOperator":
+                    c_, a_, b_ = kids(n)
+                    return self.val(a_ if self.val(c_) else b_)
                 raise AnalysisBroken("C08.G1: expression `%s` outside the fragment" % render(n)[:60])
 
             def run(self, s):
@@ -859,6 +868,12 @@ def run(rep, ctx):
                         raise AnalysisBroken("C08.G1: increment of `%s` outside the fragment" % t)
                 elif k == "NullStmt" or s.get("m") == "assert":
                     pass
+                elif k == "DeclStmt":
+                    for v_ in kids(s):
+                        if v_["k"] == "VarDecl" and kids(v_):
+                            self.locals[v_["declId"]] = self.val(kids(v_)[0])
+                elif k == "ContinueStmt":
+                    raise NextVar()
                 else:
                     raise AnalysisBroken("C08.G1: statement `%s` outside the fragment" % render(s)[:60])
 
@@ -868,7 +883,10 @@ def run(rep, ctx):
         for nlv, has_type, ty_, (lb, ub) in itertools.product((0, 1), (0, 1), (0, 1), ((0.0, 1.0), (-0.0, 1.0), (0.0, 2.0), (-3.0, 20.0), (1.0, 1.0), (0.0, math.inf), (0.0, 0.0), (0.0, 0.5), (-1.0, 1.0), (1e-9, 1.0))):
             ev = Ev(dict(nlv=nlv, has_type=has_type, type=ty_, lb=lb, ub=ub))
             try:
-                ev.run(body)
+                try:
+                    ev.run(body)
+                except NextVar:
+                    pass
             except Conflict as e:
                 bad.append(str(e))
                 continue
